@@ -489,8 +489,94 @@ def rule_r4(ctx) -> RuleResult:
     return rr
 
 
+class CounterBalance(Flow):
+    """state = net change of one counter since function entry"""
+
+    def __init__(self, key: str, rr: RuleResult, relfile: str, qual: str, rule: str):
+        self.key, self.rr, self.relfile, self.qual, self.rule = key, rr, relfile, qual, rule
+
+    def transfer(self, st, state):
+        if isinstance(st, ast.AugAssign) and unparse(st.target) == self.key and isinstance(st.value, ast.Constant) \
+                and isinstance(st.value.value, int):
+            if isinstance(st.op, ast.Add):
+                return [state + st.value.value]
+            if isinstance(st.op, ast.Sub):
+                return [state - st.value.value]
+        return [state]
+
+    def loop_backedge(self, loop, entry, state, via):
+        if state not in entry:
+            self.rr.bad(Finding(self.rule, self.relfile, self.qual, "{}: loop@{} back edge".format(self.key, _loop_label(loop)),
+                                "one iteration of the loop changes the counter `{}` by {:+d} (via line {})".format(
+                                    self.key, state - min(entry), getattr(via, "lineno", 0)), getattr(via, "lineno", 0)))
+            return None
+        return state
+
+
+_COUNTER_POSITIVE = """
+def f(node):
+    global depth
+    depth += 1
+    if not node:
+        return ""
+    r = g(node)
+    depth -= 1
+    return r
+"""
+
+
+def paired_counter_findings(ctx, rule: str, only_module=None) -> RuleResult:
+    """Package-wide typestate lint: a counter that one function both increments and decrements by
+    constants (a nesting depth, a re-entrancy count) is back at its entry value on every path to
+    every return of that function and around every loop iteration.  An early exit that skips the
+    decrement leaves the counter raised for the rest of the page (depth limits fire on flat input,
+    'inside an argument list' stays true)."""
+    rr = RuleResult(rule, "counters incremented and decremented in one function are balanced on every path", min_instances=1)
+
+    def analyse(dotted, relfile, fn):
+        keys = {}
+        for n in walk_no_nested(fn):
+            if isinstance(n, ast.AugAssign) and isinstance(n.value, ast.Constant) and isinstance(n.value.value, int) \
+                    and isinstance(n.op, (ast.Add, ast.Sub)) and isinstance(n.target, (ast.Name, ast.Attribute)):
+                keys.setdefault(unparse(n.target), set()).add(type(n.op).__name__)
+        found = 0
+        for key, opset in sorted(keys.items()):
+            if opset != {"Add", "Sub"}:
+                continue
+            found += 1
+            w = CounterBalance(key, rr, relfile, dotted, rule)
+            out = w.run_function(fn, [0])
+            bad = [(n, d) for n, d in out.ret if d != 0] + [(None, d) for d in out.fall if d != 0]
+            if bad:
+                n, d = bad[0]
+                rr.bad(Finding(rule, relfile, dotted, "{} at {}".format(key, "return@{}".format(n.lineno) if n is not None else "end of function"),
+                               "the counter `{}` is {:+d} relative to function entry on this exit: an early exit skips the matching "
+                               "decrement/increment".format(key, d), n.lineno if n is not None else fn.lineno))
+            elif not any(f_.function == dotted and f_.construct.startswith(key) for f_ in rr.findings):
+                rr.ok(dotted, "counter {} balanced".format(key), {"fn": dotted, "counter": key})
+        return found
+
+    # built-in positive example: must be reported on every run
+    probe = RuleResult(rule, "probe")
+    saved = rr
+    rr = probe
+    analyse("<positive example>", "<builtin>", ast.parse(_COUNTER_POSITIVE).body[0])
+    rr = saved
+    if not probe.findings:
+        raise AnalysisError(rule + ": the built-in positive example was not reported")
+    n = 0
+    for dotted, m, f in ctx.index.all_functions():
+        if only_module and not dotted.startswith(only_module + "."):
+            continue
+        n += analyse(dotted, m.relpath, f)
+    rr.instances["paired_counters_found"] = n
+    if n == 0:
+        rr.ok("package" if not only_module else only_module, "no function both increments and decrements a counter (positive example reported)")
+    return rr
+
+
 def run(ctx) -> list:
-    results = [rule_r1(ctx), rule_r2(ctx), rule_r3(ctx), rule_r4(ctx)]
+    results = [rule_r1(ctx), rule_r2(ctx), rule_r3(ctx), rule_r4(ctx), paired_counter_findings(ctx, "C16.R5")]
     if ctx.thorough:
         from ..core.callgraph import CallGraph
         from ..core.cgcheck import crosscheck
